@@ -118,6 +118,13 @@ def cases(draw, name, tier):
             case["plan"].insert(draw(st.integers(0, len(case["plan"]))), ["mutate", i, how, 900 + k])
         if not TOOLS[name].infinite:
             case["plan"] = case["plan"] + [0, 0]  # an append may have made the input longer
+    if TOOLS[name].outer and case["params"]["outer"].get("fl") == "list" and case["plan"] and draw(st.integers(0, 1)) == 0:
+        # ... or the list OF iterables it handed to chain.from_iterable (a work queue that is still being filled)
+        case["params"]["outer"]["mutable"] = True
+        for k in range(draw(st.integers(1, 2))):
+            how = draw(st.sampled_from(["append", "append", "pop", "clear"]))
+            case["plan"].insert(draw(st.integers(0, len(case["plan"]))), ["mutate", "outer", how, 950 + k])
+        case["plan"] = case["plan"] + [0, 0]
     if name == "tee" and case["params"]["n"] >= 2 and case["plan"]:
         # a child may also be closed / dropped early: its siblings must be unaffected
         k = case["params"]["n"]
